@@ -26,6 +26,7 @@ type Peer struct {
 	Order    []int // permutation in which a complete batch is answered
 	OneWrite bool  // all replies of a batch in one transport write
 	Kinds    map[int]string // by arrival index: reply kind (default ok)
+	DefaultKind string      // reply kind for requests not listed in Kinds
 	Seen     []*wire.Msg
 	Dup      string // set when a tag arrives that is already outstanding
 	BadFrame string
@@ -76,6 +77,9 @@ func peerQid(fid uint32, i int) wire.Qid {
 
 func (p *Peer) replyFor(idx int, m *wire.Msg) *wire.Msg {
 	kind := p.Kinds[idx]
+	if kind == "" {
+		kind = p.DefaultKind
+	}
 	switch kind {
 	case "none":
 		return nil
